@@ -21,6 +21,7 @@ import (
 	"fmt"
 	"math/rand"
 	"os"
+	"sort"
 	"sync"
 	"time"
 
@@ -121,7 +122,12 @@ func run(c *lib.Ctx) error {
 		return lib.Infra("GenOrder: %s\n%s", r.Err, r.ErrTrace)
 	}
 	seen := map[string]bool{}
-	nG, nUnspec := 0, 0
+	type gcase struct {
+		cs     oneCase
+		exp    expT
+		unspec bool
+	}
+	var gcs []gcase
 	for _, s := range r.PrintedStrings() {
 		var gl genLine
 		if err := json.Unmarshal([]byte(s), &gl); err != nil {
@@ -133,40 +139,64 @@ func run(c *lib.Ctx) error {
 		}
 		seen[k] = true
 		for _, gc := range gl.Cases {
-			nG++
-			cs := oneCase{In: fixItems(gl.In), O: gc.O, Seed: c.Seed*1_000_003 + int64(nG)}
+			gcs = append(gcs, gcase{oneCase{In: fixItems(append([]Item{}, gl.In...)), O: gc.O}, gc.Exp, gc.Unspec})
+		}
+	}
+	// deterministic order (Go map iteration is random), then replay on 6 Evalers
+	sort.Slice(gcs, func(i, j int) bool {
+		a, b := mustJSON([]any{gcs[i].cs.In, gcs[i].cs.O}), mustJSON([]any{gcs[j].cs.In, gcs[j].cs.O})
+		return a < b
+	})
+	nG, nUnspec := len(gcs), 0
+	var gErr error
+	var gmu sync.Mutex
+	const gpar = 6
+	lib.Parallel(gpar, gpar, func(w int) {
+		ev := elv.New()
+		for i := w; i < len(gcs); i += gpar {
+			gc := gcs[i]
+			cs := gc.cs
+			cs.Seed = c.Seed*1_000_003 + int64(i)
 			res, err := runOrder(ev, cs)
 			if err != nil {
-				return err
+				gmu.Lock()
+				gErr = err
+				gmu.Unlock()
+				return
 			}
 			c.AddEvals(1)
-			if len(cs.In) >= 2 || gc.O.Fail != "none" || gc.O.Cmp == "both" {
+			if len(cs.In) >= 2 || cs.O.Fail != "none" || cs.O.Cmp == "both" {
 				c.Distinct([]any{cs.In, cs.O})
 			}
-			if nG%9973 == 1 {
-				c.Sample(map[string]any{"in": cs.In, "o": cs.O, "code": res.Code, "exp": gc.Exp, "threw": res.Exc, "out": res.Out})
+			if i%(len(gcs)/3+1) == 7 {
+				c.Sample(map[string]any{"in": cs.In, "o": cs.O, "code": res.Code, "exp": gc.exp, "threw": res.Exc, "out": res.Out})
 			}
-			exp := gc.Exp.Out
+			exp := gc.exp.Out
 			if res.Prof == profPlain {
 				exp = append([]Item{}, exp...)
 				for i := range exp {
 					exp[i] = plainTag(exp[i])
 				}
 			}
-			if gc.Unspec {
+			if gc.unspec {
+				gmu.Lock()
 				nUnspec++
+				gmu.Unlock()
 			}
 			switch {
 			case res.Panic != "":
 				c.Reject("order-G:panic:"+cs.O.String(), describe(cs, res)+" PANIC "+res.Panic, cs)
-			case gc.Exp.Exc && !(res.Exc && len(res.Out) == 0):
+			case gc.exp.Exc && !(res.Exc && len(res.Out) == 0):
 				c.Reject("order-G:must-throw-without-output:"+cs.O.String(), describe(cs, res)+"; prescribed: exception, no output", cs)
-			case gc.Unspec && res.Exc && len(res.Out) == 0:
+			case gc.unspec && res.Exc && len(res.Out) == 0:
 				// the reference leaves open whether this call throws; it threw without output
-			case !gc.Exp.Exc && (res.Exc || res.ProjErr != nil || !sameItems(exp, res.Out)):
+			case !gc.exp.Exc && (res.Exc || res.ProjErr != nil || !sameItems(exp, res.Out)):
 				c.Reject("order-G:not-the-stable-sorted-permutation:"+cs.O.String(), describe(cs, res)+"; prescribed output "+mustJSON(exp), cs)
 			}
 		}
+	})
+	if gErr != nil {
+		return gErr
 	}
 	if int64(len(seen)) != r.Distinct {
 		return lib.Infra("GenOrder: TLC reported %d sequences, received %d", r.Distinct, len(seen))
@@ -191,7 +221,7 @@ func run(c *lib.Ctx) error {
 
 func validate(c *lib.Ctx, ev *eval.Evaler, files map[string][]byte) error {
 	g := &gen{rnd: rand.New(rand.NewSource(c.Seed*104729 + 5))}
-	n := c.Pick(500, 6000)
+	n := c.Pick(400, 4000)
 	var cases []oneCase
 	var recs []judged
 	maxLen, long := 0, 0
@@ -234,6 +264,15 @@ func validate(c *lib.Ctx, ev *eval.Evaler, files map[string][]byte) error {
 }
 
 func judgeAll(c *lib.Ctx, name string, cases []oneCase, recs []judged, files map[string][]byte, ev *eval.Evaler) error {
+	if os.Getenv("C10_SELFTEST") == "corrupt" {
+		// vacuity guard (development only): swap two outputs of the first case that has two different ones
+		for i := range recs {
+			if o := recs[i].Out; len(o) >= 2 && mustJSON(o[0]) != mustJSON(o[1]) {
+				o[0], o[1] = o[1], o[0]
+				break
+			}
+		}
+	}
 	if p := os.Getenv("C10_DUMP"); p != "" {
 		os.WriteFile(p, lib.NDJSON(recs), 0o644)
 	}
